@@ -210,7 +210,14 @@ struct StorageInner {
     get_calls: u64,
     gap_seen: Option<(u64, u64)>,
     manager: Option<std::sync::Weak<EngineManager>>,
+    /// every value of `persisted.next()` the storage ever reported
+    published: std::collections::BTreeSet<u64>,
+    /// the hand-off task called `queue_next_block` more than `MAX_HANDOFFS` times in one incarnation
+    runaway: bool,
 }
+
+/// No case hands over anywhere near this many blocks; a task that does is looping.
+const MAX_HANDOFFS: usize = 20_000;
 
 #[derive(Debug)]
 struct Storage {
@@ -218,6 +225,45 @@ struct Storage {
     persisted: sync::watch::Sender<BlockStoreState>,
     gate: sync::watch::Sender<Gate>,
     inner: Mutex<StorageInner>,
+    /// `mt` cases: every hand-off is made durable inside `queue_next_block` (like `in_memory::Engine`)
+    auto: bool,
+}
+
+impl Storage {
+    /// Reports `p` (must be called with `inner` locked by the caller, so that reports are ordered).
+    fn report(&self, inner: &mut StorageInner, p: BlockStoreState) {
+        inner.published.insert(p.next().0);
+        self.persisted.send_replace(p);
+    }
+    /// `in_memory::Engine::queue_next_block`: ignore a block below the head, store the block at the head.
+    fn persist_now(&self, block: Block) {
+        let mut inner = self.inner.lock().unwrap();
+        let mut p = self.persisted.borrow().clone();
+        let want = p.next();
+        if block.number() < want {
+            return;
+        }
+        if block.number() > want {
+            inner.gap_seen = Some((block.number().0, want.0));
+            return;
+        }
+        p.last = Some(last_of(&block));
+        inner.disk.insert(block.number().0, block);
+        self.report(&mut inner, p);
+    }
+    /// side channel: the storage obtains `blocks` (numbers `next ..= l`) unless its head is already beyond `l`
+    fn jump_to(&self, l: u64, blocks: &BTreeMap<u64, Block>) {
+        let mut inner = self.inner.lock().unwrap();
+        let mut p = self.persisted.borrow().clone();
+        if p.next().0 > l {
+            return;
+        }
+        for n in p.next().0..=l {
+            inner.disk.insert(n, blocks[&n].clone());
+        }
+        p.last = Some(last_of(&blocks[&l]));
+        self.report(&mut inner, p);
+    }
 }
 
 fn last_of(b: &Block) -> Last {
@@ -255,8 +301,16 @@ impl EngineInterface for Iface {
     async fn queue_next_block(&self, ctx: &ctx::Ctx, block: Block) -> ctx::Result<()> {
         {
             let mut inner = self.0.inner.lock().unwrap();
+            if inner.handoffs.len() >= MAX_HANDOFFS {
+                inner.runaway = true;
+                return Err(anyhow::format_err!("runaway hand-off task").into());
+            }
             let at = inner.manager.as_ref().and_then(|m| m.upgrade()).map(|m| m.persisted().next().0);
             inner.handoffs.push((block.clone(), at));
+        }
+        if self.0.auto {
+            self.0.persist_now(block);
+            return Ok(());
         }
         let mut gate = self.0.gate.subscribe();
         sync::wait_for(ctx, &mut gate, |g| g.fail_next || g.credits > 0).await?;
@@ -299,6 +353,71 @@ impl EngineInterface for Iface {
     }
 }
 
+// ------------------------------------------------------------------------------------------------ a lying peer
+
+/// Storage of the remote peer in the `net` family: it reports a durable range and answers `get_block(n)` with
+/// whatever block the scenario programmed for `n` (possibly one with a different number, or a damaged one);
+/// numbers without a programmed answer are never answered.
+#[derive(Debug)]
+struct Liar {
+    genesis: validator::Genesis,
+    persisted: sync::watch::Sender<BlockStoreState>,
+    answers: BTreeMap<u64, Block>,
+    served: Mutex<BTreeMap<u64, u64>>,
+}
+
+#[derive(Debug, Clone)]
+struct LiarIface(Arc<Liar>);
+
+#[async_trait::async_trait]
+impl EngineInterface for LiarIface {
+    async fn genesis(&self, _ctx: &ctx::Ctx) -> ctx::Result<validator::Genesis> {
+        Ok(self.0.genesis.clone())
+    }
+    async fn get_validator_schedule(&self, _ctx: &ctx::Ctx, _n: BlockNumber) -> ctx::Result<(validator::Schedule, BlockNumber)> {
+        Ok((self.0.genesis.validators_schedule.clone().unwrap(), self.0.genesis.first_block))
+    }
+    async fn get_pending_validator_schedule(&self, _ctx: &ctx::Ctx, _n: BlockNumber) -> ctx::Result<Option<(validator::Schedule, BlockNumber)>> {
+        Ok(None)
+    }
+    fn persisted(&self) -> sync::watch::Receiver<BlockStoreState> {
+        self.0.persisted.subscribe()
+    }
+    async fn get_block(&self, ctx: &ctx::Ctx, number: BlockNumber) -> ctx::Result<Block> {
+        match self.0.answers.get(&number.0) {
+            Some(b) => {
+                *self.0.served.lock().unwrap().entry(number.0).or_default() += 1;
+                Ok(b.clone())
+            }
+            None => {
+                ctx.canceled().await;
+                Err(ctx::Canceled.into())
+            }
+        }
+    }
+    async fn queue_next_block(&self, _ctx: &ctx::Ctx, _block: Block) -> ctx::Result<()> {
+        Ok(())
+    }
+    async fn verify_pregenesis_block(&self, _ctx: &ctx::Ctx, _block: &validator::PreGenesisBlock) -> ctx::Result<()> {
+        Ok(())
+    }
+    async fn verify_payload(&self, _ctx: &ctx::Ctx, _n: BlockNumber, _p: &validator::Payload) -> ctx::Result<()> {
+        Ok(())
+    }
+    async fn propose_payload(&self, _ctx: &ctx::Ctx, _n: BlockNumber) -> ctx::Result<validator::Payload> {
+        Ok(validator::Payload(vec![]))
+    }
+    async fn get_state(&self, _ctx: &ctx::Ctx) -> ctx::Result<validator::ReplicaState> {
+        Ok(validator::ReplicaState::default())
+    }
+    async fn set_state(&self, _ctx: &ctx::Ctx, _s: &validator::ReplicaState) -> ctx::Result<()> {
+        Ok(())
+    }
+    async fn push_tx(&self, _ctx: &ctx::Ctx, _tx: Transaction) -> ctx::Result<bool> {
+        Ok(false)
+    }
+}
+
 // ------------------------------------------------------------------------------------------------ the node
 
 struct Node {
@@ -308,6 +427,8 @@ struct Node {
     /// Some(is_err) once `EngineManagerRunner::run` has returned
     runner_result: Arc<Mutex<Option<bool>>>,
     reqs: BTreeMap<u64, tokio::task::JoinHandle<()>>,
+    /// blocks of the calls that have not returned yet
+    req_blocks: BTreeMap<u64, Block>,
     finished: Arc<Mutex<Vec<(u64, bool)>>>,
     /// append-only monitor: block identity first seen in memory / handed over, per number
     seen: BTreeMap<u64, Block>,
@@ -318,6 +439,7 @@ struct World {
     storage: Arc<Storage>,
     node: Node,
     racy: bool,
+    mt: bool,
     honest: bool,
     /// highest head the storage ever reported in this case and the store's persisted() before a regress
     regress_pending: Option<BlockStoreState>,
@@ -325,12 +447,15 @@ struct World {
 
 pub struct C08 {
     rt: tokio::runtime::Runtime,
+    /// multi-threaded runtime of the `mt` cases
+    mt_rt: tokio::runtime::Runtime,
     chain: Chain,
     world: Option<World>,
     capacity: u64,
     case_ops: Vec<Value>,
     /// monitors that already reported in the current case
     reported: std::collections::HashSet<String>,
+    livelock: bool,
 }
 
 fn range_json(s: &BlockStoreState) -> Value {
@@ -354,11 +479,13 @@ impl C08 {
     fn new(seed: u64) -> Self {
         Self {
             rt: tokio::runtime::Builder::new_current_thread().enable_all().build().unwrap(),
+            mt_rt: tokio::runtime::Builder::new_multi_thread().worker_threads(4).enable_all().build().unwrap(),
             chain: Chain::new(seed),
             world: None,
             capacity: read_capacity(),
             case_ops: vec![],
             reported: Default::default(),
+            livelock: false,
         }
     }
 
@@ -398,6 +525,7 @@ impl C08 {
                 scope_task,
                 runner_result,
                 reqs: BTreeMap::new(),
+                req_blocks: BTreeMap::new(),
                 finished: Arc::new(Mutex::new(vec![])),
                 seen: BTreeMap::new(),
                 handoffs_reported: 0,
@@ -428,7 +556,7 @@ impl C08 {
         let manager = node.manager.clone();
         let finished = node.finished.clone();
         let rr = node.runner_result.clone();
-        self.rt.block_on(async {
+        let livelock = self.rt.block_on(async {
             let snap = || {
                 let (h, i) = {
                     let inner = storage.inner.lock().unwrap();
@@ -440,6 +568,7 @@ impl C08 {
             };
             let mut last = snap();
             let mut stable = 0;
+            let mut rounds = 0;
             while stable < 3 {
                 for _ in 0..8 {
                     tokio::task::yield_now().await;
@@ -451,9 +580,17 @@ impl C08 {
                     stable = 0;
                     last = now;
                 }
+                rounds += 1;
+                if rounds > 4000 {
+                    return true;
+                }
             }
+            false
         });
+        self.livelock |= livelock;
         node.reqs.retain(|_, h| !h.is_finished());
+        let live: Vec<u64> = node.reqs.keys().copied().collect();
+        node.req_blocks.retain(|id, _| live.contains(id));
     }
 
     fn parse_desc(n: u64, b: &Value) -> Desc {
@@ -507,7 +644,8 @@ impl C08 {
         let w = self.world.as_ref().unwrap();
         let before = w.storage.inner.lock().unwrap().get_calls;
         let manager = w.node.manager.clone();
-        let r = self.rt.block_on(async {
+        let rt = if w.mt { &self.mt_rt } else { &self.rt };
+        let r = rt.block_on(async {
             let root = ctx::test_root(&ctx::RealClock);
             manager.get_block(&root, BlockNumber(n)).await
         });
@@ -538,7 +676,7 @@ impl C08 {
         let mut fail = |site: &str, what: String, _this: &Self| found.push((site.to_string(), what));
         // ranges ordered
         if p.next() > q.next() || p.first > q.first {
-            fail("ranges", format!("persisted {:?} runs ahead of queued {:?}", range_json(&p), range_json(&q)), self);
+            fail("ranges", format!("persisted {} runs ahead of queued {}", range_json(&p), range_json(&q)), self);
         }
         // contiguity / availability / verified / append-only over the whole available range (+ one on each side)
         let lo = q.first.0.saturating_sub(1);
@@ -550,7 +688,7 @@ impl C08 {
                 let inside = q.contains(BlockNumber(n));
                 match (inside, src.as_str(), b) {
                     (false, "absent", _) => {}
-                    (false, s, _) => fail("contiguous", format!("block {n} outside queued {:?} answered {s}", range_json(&q)), self),
+                    (false, s, _) => fail("contiguous", format!("block {n} outside queued {} answered {s}", range_json(&q)), self),
                     (true, "absent", _) => fail("contiguous", format!("available block {n} answered None"), self),
                     (true, "err", _) => {
                         if honest && n >= sp.first.0 {
@@ -589,6 +727,11 @@ impl C08 {
         }
         // hand-offs of this incarnation
         let handoffs: Vec<(Block, Option<u64>)> = self.world.as_ref().unwrap().storage.inner.lock().unwrap().handoffs.clone();
+        let mt = self.world.as_ref().unwrap().mt;
+        let published = self.world.as_ref().unwrap().storage.inner.lock().unwrap().published.clone();
+        // sequential cases: the store's `persisted().next()` read inside the call; `mt` cases (the watcher may run
+        // between the task's read and the call): any head the storage has reported
+        let is_head = |n: u64, at: &Option<u64>| Some(n) == *at || (mt && published.contains(&n));
         let from = self.world.as_ref().unwrap().node.handoffs_reported;
         for i in from..handoffs.len() {
             let (b, at) = &handoffs[i];
@@ -601,10 +744,10 @@ impl C08 {
                 if n <= prev {
                     fail("hand-off", format!("hand-off {n} after {prev} is not increasing"), self);
                 }
-                if n != prev + 1 && Some(n) != *at {
+                if n != prev + 1 && !is_head(n, at) {
                     fail("hand-off", format!("hand-off {n} follows neither {prev} nor the durable head {at:?}"), self);
                 }
-            } else if Some(n) != *at {
+            } else if !is_head(n, at) {
                 fail("hand-off", format!("first hand-off {n} is not the durable head {at:?}"), self);
             }
             let old = self.world.as_ref().unwrap().node.seen.get(&n).cloned();
@@ -618,6 +761,12 @@ impl C08 {
                     self.world.as_mut().unwrap().node.seen.insert(n, b.clone());
                 }
             }
+        }
+        if self.world.as_ref().unwrap().storage.inner.lock().unwrap().runaway {
+            fail("hand-off", format!("more than {MAX_HANDOFFS} hand-offs in one incarnation: the hand-off task is looping"), self);
+        }
+        if std::mem::take(&mut self.livelock) {
+            fail("livelock", "the tasks did not become quiescent within 4000 scheduler rounds".to_string(), self);
         }
         // storage gap
         if let Some((n, want)) = self.world.as_ref().unwrap().storage.inner.lock().unwrap().gap_seen.take() {
@@ -694,18 +843,290 @@ impl C08 {
                     }
                 }
             }
+            w.storage.report(&mut inner, p);
         }
-        w.storage.persisted.send_replace(p);
     }
 
     fn state_for(&mut self, first: u64, last: Option<u64>) -> BlockStoreState {
         BlockStoreState { first: BlockNumber(first), last: last.map(|l| last_of(&self.chain.canonical(l))) }
     }
 
+    /// `net` family: the node under test (fresh, durable state `{first, None}`) runs the real gossip network
+    /// component and fetches from one real peer whose storage lies (`Liar`). Exercises
+    /// gossip/runner.rs:197-224 (`block.number() == req.0`, then `queue_block`). The scenario ends when the
+    /// connection was dropped after every programmed answer was served, or when as many blocks as there are
+    /// answers were stored, or after 20 s.
+    fn exec_net(&mut self, op: &Value, out: &mut Out) -> Value {
+        use zksync_consensus_network::testonly as nt;
+        if let Some(mut w) = self.world.take() {
+            Self::stop_node(&self.rt, &mut w.node);
+        }
+        self.case_ops.clear();
+        self.reported.clear();
+        self.case_ops.push(op.clone());
+        let first = op["first"].as_u64().unwrap();
+        let have = (op["have"][0].as_u64().unwrap(), op["have"][1].as_u64().unwrap());
+        let mut answers = BTreeMap::new();
+        let mut wants: Vec<(u64, Block)> = vec![];
+        for a in op["answers"].as_array().unwrap() {
+            let want = a["want"].as_u64().unwrap();
+            let d = Self::parse_desc(a["n"].as_u64().unwrap(), &a["b"]);
+            let b = self.chain.build(&d);
+            answers.insert(want, b.clone());
+            wants.push((want, b));
+        }
+        let target = first + wants.len() as u64;
+        let p_b = self.state_for(have.0, Some(have.1));
+        let storage = Arc::new(Storage {
+            genesis: self.chain.setup.genesis.clone(),
+            persisted: sync::watch::channel(BlockStoreState { first: BlockNumber(first), last: None }).0,
+            gate: sync::watch::channel(Gate { credits: 1000, fail_next: false }).0,
+            inner: Mutex::new(StorageInner { published: [first].into(), ..Default::default() }),
+            auto: false,
+        });
+        let liar = Arc::new(Liar {
+            genesis: self.chain.setup.genesis.clone(),
+            persisted: sync::watch::channel(p_b).0,
+            answers,
+            served: Mutex::new(BTreeMap::new()),
+        });
+        let setup = self.chain.setup.clone();
+        let seed = first ^ 0x5eed;
+        let (q, outcome, served, blocks): (BlockStoreState, String, BTreeMap<u64, u64>, Vec<Block>) = self.rt.block_on(async {
+            let root = ctx::test_root(&ctx::RealClock);
+            let rng = &mut StdRng::seed_from_u64(seed);
+            let (mgr_a, runner_a) = EngineManager::new(&root, Box::new(Iface(storage.clone())), time::Duration::seconds(1)).await.unwrap();
+            let (mgr_b, _runner_b) = EngineManager::new(&root, Box::new(LiarIface(liar.clone())), time::Duration::seconds(1)).await.unwrap();
+            let dummy = nt::new_configs(rng, &setup, 0).remove(0);
+            let mut cfg_b = nt::new_fullnode(rng, &dummy);
+            cfg_b.gossip.static_outbound.clear();
+            let cfg_a = nt::new_fullnode(rng, &cfg_b);
+            let b_key = cfg_b.gossip.key.public();
+            let (inst_a, run_a) = nt::Instance::new(cfg_a, mgr_a.clone());
+            let (_inst_b, run_b) = nt::Instance::new(cfg_b, mgr_b.clone());
+            let mut outcome = String::from("timeout");
+            let _: Result<(), ctx::Error> = scope::run!(&root, |ctx, s| async {
+                s.spawn_bg(async {
+                    let _ = runner_a.run(ctx).await;
+                    Ok(())
+                });
+                s.spawn_bg(async {
+                    let _ = run_a.run(ctx).await;
+                    Ok(())
+                });
+                s.spawn_bg(async {
+                    let _ = run_b.run(ctx).await;
+                    Ok(())
+                });
+                let r = tokio::time::timeout(std::time::Duration::from_secs(20), async {
+                    inst_a.wait_for_gossip_connections().await;
+                    loop {
+                        let all = {
+                            let sv = liar.served.lock().unwrap();
+                            liar.answers.keys().all(|k| sv.get(k).copied().unwrap_or(0) > 0)
+                        };
+                        if all || mgr_a.queued().next().0 >= target {
+                            break;
+                        }
+                        tokio::time::sleep(std::time::Duration::from_millis(1)).await;
+                    }
+                    tokio::select! {
+                        _ = inst_a.wait_for_gossip_disconnect(ctx, &b_key) => "disconnect",
+                        _ = mgr_a.wait_until_queued(ctx, BlockNumber(target - 1)) => "stored",
+                    }
+                })
+                .await;
+                if let Ok(o) = r {
+                    outcome = o.to_string();
+                }
+                Ok(())
+            })
+            .await;
+            let q = mgr_a.queued();
+            let mut blocks = vec![];
+            if let Some(l) = &q.last {
+                for n in q.first.0..=l.number().0 {
+                    if let Ok(Some(b)) = mgr_a.get_block(&root, BlockNumber(n)).await {
+                        blocks.push(b);
+                    }
+                }
+            }
+            let served = liar.served.lock().unwrap().clone();
+            (q, outcome, served, blocks)
+        });
+        out.count(&format!("net={outcome}"));
+        // monitors: whatever entered verifies, and was delivered for the number that was requested
+        for b in &blocks {
+            if !self.chain.independently_valid(b) {
+                out.oracle_fail_ops("verified", &format!("a peer-supplied block that does not verify was stored: {}", self.ident(b)), op.clone(), &self.case_ops);
+            }
+            if !wants.iter().any(|(want, x)| x == b && *want == b.number().0) {
+                out.oracle_fail_ops("peer-guard", &format!("block {} entered the store although no request for its number was answered with it", self.ident(b)), op.clone(), &self.case_ops);
+            }
+        }
+        if outcome == "timeout" {
+            out.oracle_fail_ops("net-timeout", "the fetch scenario neither stored the blocks nor dropped the connection within 20 s", op.clone(), &self.case_ops);
+        }
+        json!({"class": "net", "q": range_json(&q), "_outcome": outcome, "_served": served.iter().map(|(k, v)| json!([k, v])).collect::<Vec<_>>() })
+    }
+
+    /// `mt` family: eight submitter tasks and a side channel run in parallel on a multi-threaded runtime against a
+    /// storage that makes every hand-off durable at once. The interleaving is up to the scheduler; the final state
+    /// (ranges, which calls returned what, which are still parked) does not depend on it, and is what is compared.
+    /// Quiescence is decided logically: every call has returned or is parked for a number above `queued.next`, and
+    /// storage, store copy and queue agree on the head.
+    fn exec_mt(&mut self, op: &Value, out: &mut Out) -> Value {
+        if let Some(mut w) = self.world.take() {
+            Self::stop_node(&self.rt, &mut w.node);
+        }
+        self.case_ops.clear();
+        self.reported.clear();
+        self.case_ops.push(op.clone());
+        let first = op["first"].as_u64().unwrap();
+        let last = op["last"].as_u64();
+        let jump = op["jump"].as_u64();
+        let p = self.state_for(first, last);
+        let p_next = p.next().0;
+        let mut disk = BTreeMap::new();
+        if let Some(l) = last {
+            for n in first..=l {
+                disk.insert(n, self.chain.canonical(n));
+            }
+        }
+        let mut jump_blocks = BTreeMap::new();
+        if let Some(l) = jump {
+            for n in p_next..=l {
+                jump_blocks.insert(n, self.chain.canonical(n));
+            }
+        }
+        // (id, src, want, block)
+        let mut subs: Vec<(u64, String, i128, Block)> = vec![];
+        for a in op["subs"].as_array().unwrap() {
+            let n = a["n"].as_u64().unwrap();
+            let d = Self::parse_desc(n, &a["b"]);
+            let b = self.chain.build(&d);
+            subs.push((a["id"].as_u64().unwrap(), a["src"].as_str().unwrap_or("api").to_string(), n as i128 + a["dwant"].as_i64().unwrap_or(0) as i128, b));
+        }
+        let storage = Arc::new(Storage {
+            genesis: self.chain.setup.genesis.clone(),
+            persisted: sync::watch::channel(p).0,
+            gate: sync::watch::channel(Gate::default()).0,
+            inner: Mutex::new(StorageInner { disk, published: [p_next].into(), ..Default::default() }),
+            auto: true,
+        });
+        let node = Self::start_node(&self.mt_rt, &storage).expect("EngineManager::new");
+        let manager = node.manager.clone();
+        let finished = node.finished.clone();
+        let reg: Arc<Mutex<Vec<(u64, u64, tokio::task::JoinHandle<()>)>>> = Arc::new(Mutex::new(vec![]));
+        let st = storage.clone();
+        let reg2 = reg.clone();
+        let timed_out = self.mt_rt.block_on(async move {
+            let mut lanes: Vec<Vec<(u64, String, i128, Block)>> = (0..8).map(|_| vec![]).collect();
+            for (i, s) in subs.into_iter().enumerate() {
+                lanes[i % 8].push(s);
+            }
+            let mut tasks = vec![];
+            for lane in lanes {
+                let (manager, finished, reg) = (manager.clone(), finished.clone(), reg2.clone());
+                tasks.push(tokio::spawn(async move {
+                    for (id, src, want, block) in lane {
+                        let (manager, finished) = (manager.clone(), finished.clone());
+                        let n = block.number().0;
+                        let h = tokio::spawn(async move {
+                            let root = ctx::test_root(&ctx::RealClock);
+                            let number = block.number();
+                            if src == "peer" && number.0 as i128 != want {
+                                finished.lock().unwrap().push((id, false));
+                                return;
+                            }
+                            if manager.queue_block(&root, block).await.is_err() {
+                                finished.lock().unwrap().push((id, false));
+                                return;
+                            }
+                            if src == "consensus" && manager.wait_until_persisted(&root, number).await.is_err() {
+                                return;
+                            }
+                            finished.lock().unwrap().push((id, true));
+                        });
+                        reg.lock().unwrap().push((id, n, h));
+                        tokio::task::yield_now().await;
+                    }
+                }));
+            }
+            let st2 = st.clone();
+            tasks.push(tokio::spawn(async move {
+                if let Some(l) = jump {
+                    for _ in 0..(l % 7) {
+                        tokio::task::yield_now().await;
+                    }
+                    st2.jump_to(l, &jump_blocks);
+                }
+            }));
+            for t in tasks {
+                let _ = t.await;
+            }
+            let deadline = std::time::Instant::now() + std::time::Duration::from_secs(10);
+            let mut stable = 0;
+            loop {
+                let qn = manager.queued().next().0;
+                let reqs_ok = reg2.lock().unwrap().iter().all(|(_, n, h)| h.is_finished() || *n > qn);
+                let sp = st.persisted.borrow().next().0;
+                if reqs_ok && sp == qn && manager.persisted().next().0 == qn {
+                    stable += 1;
+                    if stable >= 5 {
+                        return false;
+                    }
+                } else {
+                    stable = 0;
+                }
+                if std::time::Instant::now() > deadline {
+                    return true;
+                }
+                tokio::time::sleep(std::time::Duration::from_millis(1)).await;
+            }
+        });
+        let mut node = node;
+        for (id, _, h) in std::mem::take(&mut *reg.lock().unwrap()) {
+            if !h.is_finished() {
+                node.reqs.insert(id, h);
+            }
+        }
+        self.world = Some(World { storage, node, racy: true, mt: true, honest: true, regress_pending: None });
+        if timed_out {
+            out.oracle_fail_ops("mt-timeout", "the concurrent case did not reach its quiescent state within 10 s", op.clone(), &self.case_ops);
+        }
+        self.monitors(out, op);
+        let obs = {
+            let w = self.world.as_ref().unwrap();
+            let mut fin: Vec<(u64, bool)> = std::mem::take(&mut *w.node.finished.lock().unwrap());
+            fin.sort();
+            json!({
+                "class": "mt",
+                "q": range_json(&w.node.manager.queued()),
+                "p": range_json(&w.node.manager.persisted()),
+                "ep": range_json(&w.storage.persisted.borrow()),
+                "fin": fin.iter().map(|(i, ok)| json!([i, ok])).collect::<Vec<_>>(),
+                "live": w.node.reqs.len(),
+                "dead": w.node.runner_result.lock().unwrap().is_some(),
+                "_handoffs": w.storage.inner.lock().unwrap().handoffs.len(),
+            })
+        };
+        let mut w = self.world.take().unwrap();
+        Self::stop_node(&self.mt_rt, &mut w.node);
+        out.count("mt-case");
+        obs
+    }
+
     fn exec_inner(&mut self, op: &Value, out: &mut Out) -> Value {
         let name = op["op"].as_str().unwrap_or("");
         out.count(&format!("op={name}"));
         let mut extra = serde_json::Map::new();
+        if name == "net" {
+            return self.exec_net(op, out);
+        }
+        if name == "mt" {
+            return self.exec_mt(op, out);
+        }
         if name == "init" {
             if let Some(mut w) = self.world.take() {
                 Self::stop_node(&self.rt, &mut w.node);
@@ -716,6 +1137,7 @@ impl C08 {
             let first = op["first"].as_u64().unwrap();
             let last = op["last"].as_u64();
             let p = self.state_for(first, last);
+            let p_next = p.next().0;
             let mut disk = BTreeMap::new();
             if let Some(l) = last {
                 for n in first..=l {
@@ -726,13 +1148,16 @@ impl C08 {
                 genesis: self.chain.setup.genesis.clone(),
                 persisted: sync::watch::channel(p).0,
                 gate: sync::watch::channel(Gate { credits: op["credits"].as_u64().unwrap_or(0), fail_next: false }).0,
-                inner: Mutex::new(StorageInner { disk, ..Default::default() }),
+                inner: Mutex::new(StorageInner { disk, published: [p_next].into(), ..Default::default() }),
+                auto: false,
             });
             let node = Self::start_node(&self.rt, &storage).expect("EngineManager::new");
-            self.world = Some(World { storage, node, racy: op["racy"].as_bool().unwrap_or(false), honest: true, regress_pending: None });
+            self.world = Some(World { storage, node, racy: op["racy"].as_bool().unwrap_or(false), mt: false, honest: true, regress_pending: None });
             self.quiesce();
             self.monitors(out, op);
-            return self.snapshot(extra);
+            let mut v = self.snapshot(extra);
+            v["class"] = json!("init");
+            return v;
         }
         if self.world.is_none() {
             return json!({"bad_op": true});
@@ -760,6 +1185,13 @@ impl C08 {
                         ));
                         let want = n as i128 + op["dwant"].as_i64().unwrap_or(0) as i128;
                         let w = self.world.as_mut().unwrap();
+                        // two calls waiting for the same number with different valid blocks race for it: which one
+                        // wins is the scheduler's choice, so from here on identities are diagnostics in this case
+                        if w.node.req_blocks.values().any(|x| x.number() == block.number() && x != &block) {
+                            w.racy = true;
+                            out.count("dynamic-racy");
+                        }
+                        w.node.req_blocks.insert(id, block.clone());
                         let manager = w.node.manager.clone();
                         let finished = w.node.finished.clone();
                         let _guard = self.rt.enter();
@@ -827,7 +1259,8 @@ impl C08 {
                     }
                 }
                 if changed {
-                    w.storage.persisted.send_replace(p);
+                    let mut inner = w.storage.inner.lock().unwrap();
+                    w.storage.report(&mut inner, p);
                 }
             }
             "jump" => {
@@ -909,7 +1342,30 @@ impl C08 {
         }
         self.quiesce();
         self.monitors(out, op);
-        self.snapshot(extra)
+        let mut v = self.snapshot(extra);
+        // observation class (generator statistics; also compared with the model)
+        let mut class = match name {
+            "submit" => {
+                let id = op["id"].as_u64().unwrap_or(0);
+                let hit = v["fin"].as_array().and_then(|f| f.iter().find(|x| x[0].as_u64() == Some(id)).map(|x| x[1].as_bool().unwrap_or(false)));
+                match (v.get("skip").is_some(), hit) {
+                    (true, _) => "submit-skip".to_string(),
+                    (_, Some(true)) => "submit-done".to_string(),
+                    (_, Some(false)) => "submit-rejected".to_string(),
+                    (_, None) => "submit-parked".to_string(),
+                }
+            }
+            "get" => match v.get("gs") {
+                Some(g) => format!("get-{}", g[1].as_str().unwrap_or("?")),
+                None => "get-skip".to_string(),
+            },
+            other => other.to_string(),
+        };
+        if v["dead"].as_bool() == Some(true) {
+            class.push_str("+dead");
+        }
+        v["class"] = json!(class);
+        v
     }
 }
 
@@ -970,6 +1426,20 @@ impl Gen {
             9 => with(b, "s", json!([0, 2, 3, 4, 5])),
             10 => with(b, "sg", json!(false)),
             _ => with(with(b, "s", json!([1, 2, 3, 4, 5])), "sg", json!(false)),
+        }
+    }
+    /// a damaged block that is rejected whatever its number (so it can be offered for a number that is not
+    /// `queued.next` yet without racing against the valid block parked for the same number)
+    fn defect_rejected(&mut self) -> Value {
+        let b = valid_b(0);
+        match self.rng.gen_range(0..7) {
+            0 => with(with(b, "e", json!(1)), "sg", json!(false)),
+            1 => with(with(b, "g", json!(false)), "sg", json!(false)),
+            2 => with(with(b, "k", json!("f")), "p", json!(false)),
+            3 => with(with(b, "k", json!("f")), "sl", json!(7)),
+            4 => with(with(b, "k", json!("f")), "s", json!([0, 1, 2, 3])),
+            5 => with(with(b, "k", json!("f")), "sg", json!(false)),
+            _ => with(with(with(b, "k", json!("f")), "s", json!([1, 2, 3, 4, 5])), "sg", json!(false)),
         }
     }
     fn start(&mut self, racy: bool) {
@@ -1054,7 +1524,7 @@ impl Gen {
         for _ in 0..self.rng.gen_range(4..14) {
             let rel = *[0i64, 0, 0, 1, -1].choose(&mut self.rng).unwrap();
             let c = self.rng.gen_range(0..2);
-            let b = self.defect(c);
+            let b = if rel >= 1 { self.defect_rejected() } else { self.defect(c) };
             let s = self.src();
             self.submit(s, rel, b);
             if self.rng.gen_bool(0.4) {
@@ -1260,6 +1730,63 @@ impl Gen {
         }
         self.op(json!({"op":"scan"}));
     }
+    fn fam_net(&mut self, variant: u64) {
+        // the peer path through the real gossip network (see `exec_net`)
+        let f = GFIRST + self.rng.gen_range(0..20);
+        let ws = vec![1u64; NVALS];
+        let v = match variant % 4 {
+            // the peer never answers `f` and answers `f+1` with the (valid, appendable) block `f`
+            0 => json!({"op":"net","reset":true,"gfirst":GFIRST,"weights":ws,"first":f,"have":[f, f + 1],
+                        "answers":[{"want":f + 1,"n":f,"b":valid_b(0)}]}),
+            // a block with the right number and a bad certificate
+            1 => json!({"op":"net","reset":true,"gfirst":GFIRST,"weights":ws,"first":f,"have":[f, f],
+                        "answers":[{"want":f,"n":f,"b":with(valid_b(0), "sg", json!(false))}]}),
+            // honest peer
+            2 => json!({"op":"net","reset":true,"gfirst":GFIRST,"weights":ws,"first":f,"have":[f, f + 1],
+                        "answers":[{"want":f,"n":f,"b":valid_b(0)},{"want":f + 1,"n":f + 1,"b":valid_b(0)}]}),
+            // low-weight certificate with the right number
+            _ => json!({"op":"net","reset":true,"gfirst":GFIRST,"weights":ws,"first":f,"have":[f, f],
+                        "answers":[{"want":f,"n":f,"b":with(valid_b(0), "s", json!([0, 1, 2, 3]))}]}),
+        };
+        self.op(v);
+    }
+    fn fam_mt(&mut self) {
+        // concurrent submitters (see `exec_mt`): valid blocks of two chains for a window of numbers, shuffled, with
+        // duplicates, conflicting blocks, damaged blocks, wrong-number peer answers and numbers beyond a gap
+        let first = self.rng.gen_range(0..12);
+        let last = if self.rng.gen_bool(0.3) { Some(first + self.rng.gen_range(0..4)) } else { None };
+        let next = last.map(|l| l + 1).unwrap_or(first);
+        let width = self.rng.gen_range(4..40);
+        let gap = if self.rng.gen_bool(0.5) { Some(next + self.rng.gen_range(1..width)) } else { None };
+        let mut subs: Vec<Value> = vec![];
+        for n in next..next + width {
+            if Some(n) == gap {
+                continue;
+            }
+            for _ in 0..self.rng.gen_range(1..4) {
+                let c = self.rng.gen_range(0..2);
+                let src = self.src();
+                let id = self.id();
+                subs.push(json!({"id":id,"src":src,"n":n,"b":valid_b(c)}));
+            }
+            if self.rng.gen_bool(0.2) {
+                let b = self.defect(0);
+                let id = self.id();
+                subs.push(json!({"id":id,"src":"peer","n":n,"b":b}));
+            }
+            if self.rng.gen_bool(0.1) {
+                let id = self.id();
+                subs.push(json!({"id":id,"src":"peer","n":n,"dwant":1,"b":valid_b(0)}));
+            }
+        }
+        subs.shuffle(&mut self.rng);
+        let jump = match self.rng.gen_range(0..3) {
+            0 => Value::Null,
+            1 => json!(next + self.rng.gen_range(0..width)),
+            _ => gap.map(|g| json!(g + self.rng.gen_range(0..3))).unwrap_or(Value::Null),
+        };
+        self.op(json!({"op":"mt","reset":true,"gfirst":GFIRST,"weights":vec![1u64; NVALS],"first":first,"last":last,"subs":subs,"jump":jump}));
+    }
     fn fam_racy(&mut self) {
         // conflicting valid blocks parked for the same number: whichever wins, the structure is the same
         self.start(true);
@@ -1308,7 +1835,7 @@ impl Gen {
                 53..=60 => {
                     let s = self.src();
                     let r = self.rng.gen_range(-1..2);
-                    let b = self.defect(0);
+                    let b = if r >= 1 { self.defect_rejected() } else { self.defect(0) };
                     self.submit(s, r, b);
                 }
                 61..=68 => { let r0 = self.rng.gen_range(1..6); self.op(json!({"op":"credit","k":r0})); },
@@ -1332,6 +1859,12 @@ impl Prop for C08 {
         let cap = self.capacity;
         // every directed family once, then a weighted mix until the budget is used
         g.fam_pregenesis();
+        for v in 0..4 {
+            g.fam_net(v);
+        }
+        for _ in 0..(if opts.thorough { 40 } else { 6 }) {
+            g.fam_mt();
+        }
         g.fam_capacity_boundary(cap);
         g.fam_lag_capacity(cap);
         let mut round = 0u64;
@@ -1359,6 +1892,8 @@ impl Prop for C08 {
                         g.fam_random()
                     }
                 }
+                15 if round % 128 == 15 => g.fam_net(round / 128),
+                15 if round % 128 == 79 => g.fam_mt(),
                 _ => g.fam_random(),
             }
             round += 1;
